@@ -1265,21 +1265,20 @@ class DeterministicOde(BaseOdeModel):
         # Jacobian of the gradient
         GJ = self.grad_jacobian(state, t)
         # and now we add the gradient
+        if by_state:
+            # everything below works in the by-parameter arrangement
+            sens = np.reshape(state_param[self.num_state:],
+                              (self.num_state, self.num_param)).flatten('F')
+            state_param = np.append(state, sens)
         sensJacobianOfState = GJ + self.sens_jacobian_state(state_param, t)
 
         if by_state:
-            arrangeVector = np.zeros(self.num_state * self.num_param)
-            k = 0
-            for j in range(0, self.num_param):
-                for i in range(0, self.num_state):
-                    if i == 0:
-                        arrangeVector[k] = (i*self.num_state) + j
-                    else:
-                        arrangeVector[k] = (i*(self.num_state - 1)) + j
-                    k += 1
-
-            outJ = outJ[np.array(arrangeVector,int),:]
-            idx = np.array(arrangeVector, int)
+            # position i*num_param + j of the by-state arrangement holds
+            # element j*num_state + i of the by-parameter arrangement
+            idx = np.array([j*self.num_state + i
+                            for i in range(self.num_state)
+                            for j in range(self.num_param)], int)
+            outJ = outJ[idx,:][:,idx]
             sensJacobianOfState = sensJacobianOfState[idx,:]
         # The Jacobian of the ode, then the sensitivities w.r.t state and
         # the sensitivities. In block form.  Theoretically, only the diagonal
